@@ -95,7 +95,7 @@ def leg_msgpack_docs(chk, tier):
     from checks import mpcommon as mp
     quick = tier == "quick"
     sc = mp.gen("MC_LoadScript", {"Mode": '"typed"', "MaxOps": 1 if quick else 3, "Widths": "{0, 4}" if quick else "{0, 2, 4, 5}", "Pads": "{0}",
-                                  "TypedTargets": '{"i32", "str", "f32", "vec_u8", "tp_ns", "objscope"}' if quick else "{}"},
+                                  "TypedTargets": '{"i32", "str", "f32", "vec_u8", "tp_ns", "objscope", "null"}' if quick else "{}"},
                 ["Export"], "c10-typed", chk, timeout=3000, xmx="8g")
     pairs = mp.replay(sc, mp.MEDIA_SEEKABLE + ["nonseek"], 8, "d8")
     sf = mp.gen("MC_LoadScript", {"Mode": '"fields"', "MaxOps": 1, "Widths": "{0}", "Pads": mp.tla_set([248, 251, 254] if quick else range(240, 262))},
@@ -157,5 +157,19 @@ def run(tier):
 
 
 def replay(path):
+    """Re-executes one recorded violation (memory/stream document leg) against the current tree; other legs re-run quick."""
+    rec = json.load(open(path))
+    case = rec.get("case", {})
+    if "scenario" in case and "memory" in case:
+        from checks import mpcommon as mp
+        s = dict(case["scenario"], id="replay")
+        chunk = case["stream"]["chunk"]
+        pairs = mp.replay([s], ["mem", case["stream"]["medium"]], chunk, "rp")
+        obs = {o["medium"]: o for _, o in pairs}
+        print(json.dumps(obs, indent=1))
+        m, o = obs["mem"], obs[case["stream"]["medium"]]
+        same = o["exc"] == m["exc"] and (o["exc"] != ["none"] or o["ev"] == m["ev"])
+        print("REPLAY property=C10 %s" % ("agrees" if same else "still differs"))
+        return 0 if same else 1
     print(open(path).read())
     return run_check("quick")
